@@ -232,6 +232,34 @@ func runC16(r *mc.Run) {
 				return q
 			}},
 		}
+		// assembled field by field with derived size fields left at their zero value: every non-empty subset of
+		// {signed data size, certification data size, QE auth data size, chain size} (base shape; all four elsewhere)
+		for mask := 1; mask < 16; mask++ {
+			if sh.name != "base" && mask != 15 {
+				continue
+			}
+			mask := mask
+			modes = append(modes, mode{fmt.Sprintf("rebuilt/sizes-unset=%04b", mask), func() *pb.QuoteV4 {
+				q := c16Rebuild(parsed, 8)
+				if mask&1 != 0 {
+					q.SignedDataSize = 0
+				}
+				if cd := q.GetSignedData().GetCertificationData(); cd != nil {
+					if mask&2 != 0 {
+						cd.Size = 0
+					}
+					if qc := cd.GetQeReportCertificationData(); qc != nil {
+						if a := qc.GetQeAuthData(); a != nil && mask&4 != 0 {
+							a.ParsedDataSize = 0
+						}
+						if ch := qc.GetPckCertificateChainData(); ch != nil && mask&8 != 0 {
+							ch.Size = 0
+						}
+					}
+				}
+				return q
+			}})
+		}
 		// (i) write monitor
 		for _, m := range modes {
 			for _, op := range ops {
@@ -257,6 +285,7 @@ func runC16(r *mc.Run) {
 					return
 				}
 				before := ar.Snapshot()
+				whole := proto.Clone(q) // the scalar fields of the message are caller-owned memory as well
 				var out string
 				fault, other := ar.Guard(func() { out = op.run(q, raw, vo, w) })
 				switch {
@@ -270,6 +299,9 @@ func runC16(r *mc.Run) {
 				case !bytes.Equal(before, ar.Snapshot()):
 					r.Violate("write:snapshot:"+op.name, id, op.name+" changed bytes of the protected arena without faulting", nil)
 					out = "changed"
+				case !proto.Equal(q, whole):
+					r.Violate("write:message-field:"+op.name, id, op.name+" changed a (non-bytes) field of the caller's quote message: "+firstDiff(q, whole.(*pb.QuoteV4)), nil)
+					out = "changed-field"
 				}
 				ar.Free()
 				r.Eval(id, true, "write:"+firstWord(out))
